@@ -13,6 +13,7 @@ import (
 	"fmt"
 	"math/big"
 	"os"
+	"runtime/debug"
 	"strings"
 	"testing"
 )
@@ -175,6 +176,7 @@ type Outcome struct {
 	Reached    []string `json:"reached"`
 	AssumeFail bool     `json:"assume_failed"`
 	Panic      string   `json:"panic,omitempty"`
+	Stack      string   `json:"stack,omitempty"`
 	Unknown    bool     `json:"unknown_harness,omitempty"`
 }
 
@@ -196,6 +198,7 @@ func runOne(c Case, f func()) (out Outcome) {
 				out.AssumeFail = true
 			} else {
 				out.Panic = fmt.Sprint(r)
+				out.Stack = string(debug.Stack())
 			}
 		}
 		out.Failed = cur.failed
